@@ -351,7 +351,7 @@ def main():
         "violations": len(vio_lines),
     }
     evp = args.evidence or os.path.join(HERE, "evidence", f"{prop}.json")
-    os.makedirs(os.path.dirname(evp), exist_ok=True)
+    os.makedirs(os.path.dirname(evp) or ".", exist_ok=True)
     json.dump(ev, open(evp, "w"), indent=1)
 
     if args.update_baseline:
